@@ -1,133 +1,327 @@
-/- C16 — second invariant, receive loop finished: a step is just `act`, and nothing it logs is a close frame,
-a teardown or a notification. -/
-import TornadoModel.C16.Inv2Open
+/- C16 — second invariant: how each helper of the model moves the link between the state and the observer's view of
+the history (`Link`), and that every event it logs satisfies the clauses about the peer's close. -/
+import TornadoModel.C16.Inv2
 namespace TornadoModel.C16
 open Spec
 
-theorem protoClose_loopDone (c : Option Nat) (r : Option Bytes) (s : St) :
-    (protoClose c r s).loopDone = s.loopDone := by
+/-! ### the observer's `now` -/
+
+theorem now_undecided_inflight (o : Obs) (hp : o.peer = .undecided) (hi : o.inflight = true) : o.now = .undecided := by
+  simp [Obs.now, hp, hi]
+
+theorem now_undecided_nil (o : Obs) (hp : o.peer = .undecided) (hq : o.pend = []) : o.now = .undecided := by
+  simp [Obs.now, hp, hq]
+
+theorem now_got (o : Obs) (p : Bytes) (ok : Bool) (rest : List Pend) (hp : o.peer = .undecided)
+    (hi : o.inflight = false) (hq : o.pend = .close p ok :: rest) :
+    o.now = .got (decodeClose p ok).1 (decodeClose p ok).2 (p.length ≤ 2 || ok) := by
+  simp [Obs.now, hp, hq, hi]
+
+theorem peerOf_streamClosed_undecided (h : List Ev) (hn : (obs h).now = .undecided) :
+    peerOf (.streamClosed :: h) = .downFirst := by
+  have hp : ((obs h).upd .streamClosed).peer = .downFirst := by simp [Obs.upd, hn]
+  unfold peerOf
+  rw [obs_cons, now_of_decided _ (by rw [hp]; simp), hp]
+
+theorem peerOf_streamClosed_decided (h : List Ev) (d : Peer) (hn : (obs h).now = d) (hd : d ≠ .undecided) :
+    peerOf (.streamClosed :: h) = d := by
+  have hp : ((obs h).upd .streamClosed).peer = d := by
+    simp only [Obs.upd, hn]
+  unfold peerOf
+  rw [obs_cons, now_of_decided _ (by rw [hp]; exact hd), hp]
+
+/-! ### events that neither the observer nor the clauses about the peer's close look at -/
+
+def inert : Ev → Bool
+  | .dataFrame | .pingFrame | .pongFrame _ | .onPong | .onPing | .writeOk | .writeClosed | .closeDue | .idle => true
+  | _ => false
+
+theorem upd_inert (o : Obs) (e : Ev) (he : inert e = true) : o.upd e = o := by
+  cases e <;> first | rfl | (simp [inert] at he)
+
+theorem clauses_inert (e : Ev) (h : List Ev) (he : inert e = true) :
+    echoesPeerCode e h = true ∧ bothClosedSendsClose e h = true ∧ teardownBothClosed e h = true ∧
+    notifyCarriesPeerClose e h = true ∧ notifyWhenDownB e h = true ∧ isClose e = false := by
+  cases e <;> first
+    | (simp [echoesPeerCode, bothClosedSendsClose, teardownBothClosed, notifyCarriesPeerClose, notifyWhenDownB, isOp, isClose]; done)
+    | (simp [inert] at he)
+
+/-! ### moving the link -/
+
+/-- only these fields of the state matter -/
+theorem link_frame {q : List In} {s t : St} (h : Link q s)
+    (hb : t.blocked = s.blocked) (hg : t.peerGone = s.peerGone) (hso : t.sopen = s.sopen)
+    (hc : t.code = s.code) (hr : t.reason = s.reason) (hst : s.sopen = true → t.st = s.st) (hl : t.log = s.log) :
+    Link q t := by
+  obtain ⟨h1, h2, h3, h4, h5, g1, g2, g3, g4, g5⟩ := h
+  constructor
+  · rw [hl, hb]; exact h1
+  · rw [hl, hg]; exact h2
+  · rw [hg]; exact h3
+  · intro hx
+    rw [hso] at hx
+    rw [hl, hc, hr, hst hx]
+    exact h4 hx
+  · intro hx
+    rw [hso] at hx
+    have := h5 hx
+    unfold PeerOK at *
+    rw [hl, hc, hr]
+    exact this
+  · rw [hl]; exact g1
+  · rw [hl]; exact g2
+  · rw [hl]; exact g3
+  · rw [hl]; exact g4
+  · rw [hl]; exact g5
+
+/-- the unread queue may be replaced by one with the same view -/
+theorem link_requeue {q q' : List In} {s : St} (h : Link q s) (hp : s.sopen = true → proj q' = proj q)
+    (hn : s.peerGone = false → ∀ x ∈ q', x ≠ In.eof) : Link q' s := by
+  obtain ⟨h1, h2, h3, h4, h5, g1, g2, g3, g4, g5⟩ := h
+  exact ⟨h1, h2, hn, fun hx => by rw [hp hx]; exact h4 hx, h5, g1, g2, g3, g4, g5⟩
+
+theorem link_emit_inert {q : List In} {s : St} (e : Ev) (he : inert e = true) (h : Link q s) : Link q (emit e s) := by
+  obtain ⟨h1, h2, h3, h4, h5, g1, g2, g3, g4, g5⟩ := h
+  obtain ⟨c1, c2, c3, c4, c5, c6⟩ := clauses_inert e s.log he
+  have ho : obs (emit e s).log = obs s.log := by
+    show obs (e :: s.log) = obs s.log
+    rw [obs_cons]; exact upd_inert _ _ he
+  have hc : (emit e s).log.any isClose = s.log.any isClose := by
+    show (e :: s.log).any isClose = s.log.any isClose
+    rw [List.any_cons, c6, Bool.false_or]
+  constructor
+  · rw [ho]; exact h1
+  · rw [ho]; exact h2
+  · exact h3
+  · intro hx; rw [ho, hc]; exact h4 hx
+  · intro hx
+    have := h5 hx
+    unfold PeerOK peerOf at *
+    rw [ho, hc]
+    exact this
+  · show forallH echoesPeerCode (e :: s.log) = true
+    rw [forallH, c1, g1]; rfl
+  · show forallH bothClosedSendsClose (e :: s.log) = true
+    rw [forallH, c2, g2]; rfl
+  · show forallH teardownBothClosed (e :: s.log) = true
+    rw [forallH, c3, g3]; rfl
+  · show forallH notifyCarriesPeerClose (e :: s.log) = true
+    rw [forallH, c4, g4]; rfl
+  · show forallH notifyWhenDownB (e :: s.log) = true
+    rw [forallH, c5, g5]; rfl
+
+/-- transport up and (an on_message in flight, or nothing relevant unread): nothing is known about the peer's close -/
+theorem link_now_undecided {q : List In} {s : St} (h : Link q s) (hso : s.sopen = true)
+    (hq : s.blocked = true ∨ proj q = []) : peerOf s.log = .undecided := by
+  obtain ⟨p1, p2, _, _, _⟩ := h.live hso
+  unfold peerOf
+  rcases hq with hb | hq
+  · exact now_undecided_inflight _ p2 (by rw [h.blk]; exact hb)
+  · exact now_undecided_nil _ p2 (by rw [p1]; exact hq)
+
+/-- the transport teardown logged from a state in which nothing is known about the peer's close -/
+theorem link_emit_down {q : List In} {s : St} (h : Link q s) (hso : s.sopen = true)
+    (hq : s.blocked = true ∨ proj q = []) :
+    Link q { emit .streamClosed s with sopen := false } := by
+  have hu := link_now_undecided h hso hq
+  obtain ⟨p1, p2, p3, p4, p5⟩ := h.live hso
+  obtain ⟨h1, h2, h3, h4, h5, g1, g2, g3, g4, g5⟩ := h
+  constructor
+  · show (obs (.streamClosed :: s.log)).inflight = s.blocked
+    rw [obs_cons]; exact h1
+  · show (obs (.streamClosed :: s.log)).gone = s.peerGone
+    rw [obs_cons]; exact h2
+  · exact h3
+  · intro hx; exact absurd hx (by simp)
+  · intro _
+    show match peerOf (.streamClosed :: s.log) with
+      | .undecided => False
+      | .downFirst => s.code = none ∧ s.reason = none
+      | .got c r wf => s.code = c ∧ s.reason = r ∧ (wf = true → (Ev.streamClosed :: s.log).any isClose = true)
+    rw [peerOf_streamClosed_undecided _ hu]
+    exact ⟨p3, p4⟩
+  · show forallH echoesPeerCode (.streamClosed :: s.log) = true
+    simp [forallH, echoesPeerCode, g1]
+  · show forallH bothClosedSendsClose (.streamClosed :: s.log) = true
+    simp [forallH, bothClosedSendsClose, isOp, g2]
+  · show forallH teardownBothClosed (.streamClosed :: s.log) = true
+    simp [forallH, teardownBothClosed, isOp, g3]
+  · show forallH notifyCarriesPeerClose (.streamClosed :: s.log) = true
+    simp [forallH, notifyCarriesPeerClose, g4]
+  · show forallH notifyWhenDownB (.streamClosed :: s.log) = true
+    simp [forallH, notifyWhenDownB, isOp, g5]
+
+/-! ### fields the helpers leave alone -/
+
+theorem protoClose_keeps (c : Option Nat) (r : Option Bytes) (s : St) :
+    (protoClose c r s).blocked = s.blocked ∧ (protoClose c r s).peerGone = s.peerGone ∧
+    (protoClose c r s).code = s.code ∧ (protoClose c r s).reason = s.reason ∧ (protoClose c r s).inq = s.inq ∧
+    (protoClose c r s).st = true := by
   rcases s with ⟨hconn, occ, ct, st, waiting, sopen, code, reason, ping, gotPong, blocked, loopDone, inq, peerGone, log⟩
-  cases st <;> cases ct <;> cases sopen <;> rfl
+  cases st <;> cases ct <;> cases sopen <;> simp [protoClose, closeStream, emit]
 
-theorem abort_loopDone2 (s : St) : (abort s).loopDone = s.loopDone := by
+theorem abort_keeps (s : St) :
+    (abort s).blocked = s.blocked ∧ (abort s).peerGone = s.peerGone ∧
+    (abort s).code = s.code ∧ (abort s).reason = s.reason ∧ (abort s).inq = s.inq ∧ (abort s).sopen = false := by
   rcases s with ⟨hconn, occ, ct, st, waiting, sopen, code, reason, ping, gotPong, blocked, loopDone, inq, peerGone, log⟩
-  cases sopen <;> rfl
+  cases sopen <;> simp [abort, protoClose, closeStream, emit]
 
-theorem act_loopDone (cfg : Cfg) (o : Op) (s : St) : (act cfg o s).loopDone = s.loopDone := by
-  cases o <;> simp only [act, enqueue, actCloseTimer, actPingTimer] <;> (repeat' split) <;>
-    simp [protoClose_loopDone, abort_loopDone2, emit]
-
-theorem pumpQ_done (cfg : Cfg) (q : List In) (s : St) (h : s.loopDone = true) : pumpQ cfg q s = { s with inq := q } := by
-  cases q <;> simp [pumpQ_nil, pumpQ_cons, h]
-
-theorem step_done (cfg : Cfg) (s : St) (o : Op) (h : s.loopDone = true) :
-    step cfg s o = act cfg o (emit (.op o) s) := by
-  unfold step pump
-  rw [pumpQ_done]
-  rw [act_loopDone]; exact h
-
-/-- a step-boundary state whose receive loop has finished (nothing ever blocked) -/
-def doneSt (hconn occ st waiting : Bool) (code : Option Nat) (reason : Option Bytes) (ping : Ping) (gotPong : Bool)
-    (inq : List In) (peerGone : Bool) (log : List Ev) : St :=
-  { hconn := hconn, onCloseCalled := occ, ct := true, st := st, waiting := waiting, sopen := false,
-    code := code, reason := reason, ping := ping, gotPong := gotPong, blocked := false, loopDone := true,
-    inq := inq, peerGone := peerGone, log := log }
-
-structure DoneLog (code : Option Nat) (reason : Option Bytes) (log : List Ev) : Prop where
-  nb : neverBlocked log = true
-  down : log.any isStreamClosed = true
-  peer : match peerOf log with
-    | .undecided => False
-    | .downFirst => code = none ∧ reason = none
-    | .got c r wf => code = c ∧ reason = r ∧ (wf = true → log.any isClose = true)
-  g1 : forallH echoesPeerCode log = true
-  g2 : forallH bothClosedSendsClose log = true
-  g3 : forallH teardownBothClosed log = true
-  g4 : forallH notifyCarriesPeerClose log = true
-
-macro "c16_stepA" hP:ident nb:ident dn:ident hc:ident g1:ident g2:ident g3:ident g4:ident : tactic => `(tactic|
-  (refine ⟨?_, ?_, ?_, ?_, fun _ => ⟨?_, ?_, ?_⟩⟩ <;>
-    simp [act, enqueue, emit, doneSt, protoClose, closeStream, abort, isClosing, actCloseTimer, actPingTimer, forallH,
-      echoesPeerCode, bothClosedSendsClose, teardownBothClosed, notifyCarriesPeerClose, neverBlocked_cons, peerOf,
-      $hP:ident, $nb:ident, $dn:ident, $hc:ident, $g1:ident, $g2:ident, $g3:ident, $g4:ident, PeerOK, isOp, isClose,
-      isAsyncDataOp]))
-
-set_option hygiene false in
-/-- the case analysis over the event, for a fixed shape of `peerOf log` (names are those of the theorems below) -/
-macro "c16_opsA" hw:ident : tactic => `(tactic|
-  (cases o with
-    | localClose c r => cases hconn <;> cases st <;> c16_stepA hP nb dn $hw g1 g2 g3 g4
-    | recvClose p ok => cases peerGone <;> c16_stepA hP nb dn $hw g1 g2 g3 g4
-    | peerDisconnect => cases peerGone <;> c16_stepA hP nb dn $hw g1 g2 g3 g4
-    | closeTimer => cases waiting <;> cases st <;> c16_stepA hP nb dn $hw g1 g2 g3 g4
-    | pingTimer =>
-      cases ping <;> cases gotPong <;> cases timeoutPos <;> cases gap <;> cases st <;>
-        c16_stepA hP nb dn $hw g1 g2 g3 g4
-    | timer =>
-      cases waiting <;> cases ping <;> cases gotPong <;> cases timeoutPos <;> cases gap <;> cases st <;>
-        c16_stepA hP nb dn $hw g1 g2 g3 g4
-    | recvPong => cases peerGone <;> c16_stepA hP nb dn $hw g1 g2 g3 g4
-    | recvPing p => cases peerGone <;> c16_stepA hP nb dn $hw g1 g2 g3 g4
-    | recvData a =>
-      cases a
-      · cases peerGone <;> c16_stepA hP nb dn $hw g1 g2 g3 g4
-      · exact absurd rfl ho
-    | release => c16_stepA hP nb dn $hw g1 g2 g3 g4
-    | appWrite => cases hconn <;> c16_stepA hP nb dn $hw g1 g2 g3 g4
-    | probe => c16_stepA hP nb dn $hw g1 g2 g3 g4))
-
-theorem stepA_down (side : Side) (pingOn timeoutPos gap : Bool) (o : Op) (ho : o ≠ .recvData true)
-    (hconn occ st waiting : Bool) (ping : Ping) (gotPong : Bool) (inq : List In) (peerGone : Bool) (log : List Ev)
-    (nb : neverBlocked log = true) (dn : log.any isStreamClosed = true) (hP : peerOf log = .downFirst)
-    (g1 : forallH echoesPeerCode log = true) (g2 : forallH bothClosedSendsClose log = true)
-    (g3 : forallH teardownBothClosed log = true) (g4 : forallH notifyCarriesPeerClose log = true) :
-    Inv2 (act ⟨side, pingOn, timeoutPos, gap⟩ o
-      (emit (.op o) (doneSt hconn occ st waiting none none ping gotPong inq peerGone log))) := by
-  c16_opsA dn
-
-theorem stepA_gotF (side : Side) (pingOn timeoutPos gap : Bool) (o : Op) (ho : o ≠ .recvData true)
-    (hconn occ st waiting : Bool) (c0 : Option Nat) (r0 : Option Bytes) (ping : Ping) (gotPong : Bool)
-    (inq : List In) (peerGone : Bool) (log : List Ev)
-    (nb : neverBlocked log = true) (dn : log.any isStreamClosed = true) (hP : peerOf log = .got c0 r0 false)
-    (g1 : forallH echoesPeerCode log = true) (g2 : forallH bothClosedSendsClose log = true)
-    (g3 : forallH teardownBothClosed log = true) (g4 : forallH notifyCarriesPeerClose log = true) :
-    Inv2 (act ⟨side, pingOn, timeoutPos, gap⟩ o
-      (emit (.op o) (doneSt hconn occ st waiting c0 r0 ping gotPong inq peerGone log))) := by
-  c16_opsA dn
-
-theorem stepA_gotT (side : Side) (pingOn timeoutPos gap : Bool) (o : Op) (ho : o ≠ .recvData true)
-    (hconn occ st waiting : Bool) (c0 : Option Nat) (r0 : Option Bytes) (ping : Ping) (gotPong : Bool)
-    (inq : List In) (peerGone : Bool) (log : List Ev)
-    (nb : neverBlocked log = true) (dn : log.any isStreamClosed = true) (hP : peerOf log = .got c0 r0 true)
-    (hw : log.any isClose = true)
-    (g1 : forallH echoesPeerCode log = true) (g2 : forallH bothClosedSendsClose log = true)
-    (g3 : forallH teardownBothClosed log = true) (g4 : forallH notifyCarriesPeerClose log = true) :
-    Inv2 (act ⟨side, pingOn, timeoutPos, gap⟩ o
-      (emit (.op o) (doneSt hconn occ st waiting c0 r0 ping gotPong inq peerGone log))) := by
-  c16_opsA hw
-
-theorem stepA (cfg : Cfg) (o : Op) (ho : o ≠ .recvData true) (hconn occ st waiting : Bool) (code : Option Nat)
-    (reason : Option Bytes) (ping : Ping) (gotPong : Bool) (inq : List In) (peerGone : Bool) (log : List Ev)
-    (hl : DoneLog code reason log) :
-    Inv2 (step cfg (doneSt hconn occ st waiting code reason ping gotPong inq peerGone log) o) := by
-  rw [step_done _ _ _ rfl]
-  obtain ⟨nb, dn, pe, g1, g2, g3, g4⟩ := hl
+theorem deliverClose_inq (cfg : Cfg) (s : St) : (deliverClose cfg s).inq = s.inq := by
   rcases cfg with ⟨side, pingOn, timeoutPos, gap⟩
-  cases hP : peerOf log with
-  | undecided => rw [hP] at pe; exact pe.elim
-  | downFirst =>
-    rw [hP] at pe
-    obtain ⟨hc, hr⟩ := pe
-    subst hc hr
-    exact stepA_down side pingOn timeoutPos gap o ho hconn occ st waiting ping gotPong inq peerGone log nb dn hP g1 g2 g3 g4
-  | got c0 r0 wf =>
-    rw [hP] at pe
-    obtain ⟨hc, hr, hw⟩ := pe
-    subst hc hr
-    cases wf
-    · exact stepA_gotF side pingOn timeoutPos gap o ho hconn occ st waiting _ _ ping gotPong inq peerGone log nb dn hP
-        g1 g2 g3 g4
-    · exact stepA_gotT side pingOn timeoutPos gap o ho hconn occ st waiting _ _ ping gotPong inq peerGone log nb dn hP
-        (hw rfl) g1 g2 g3 g4
+  rcases s with ⟨hconn, occ, ct, st, waiting, sopen, code, reason, ping, gotPong, blocked, loopDone, inq, peerGone, log⟩
+  cases side <;> cases hconn <;> cases occ <;> cases sopen <;> simp [deliverClose, abort, protoClose, closeStream, emit]
+
+theorem finishLoop_inq (cfg : Cfg) (s : St) : (finishLoop cfg s).inq = s.inq := by
+  unfold finishLoop; rw [deliverClose_inq]
+
+/-! ### `protoClose`, `abort`, the close notification -/
+
+/-- `close()` called on a state whose transport is down, or in which nothing is known about the peer's close -/
+theorem link_protoClose {q : List In} {s : St} (c : Option Nat) (r : Option Bytes) (h : Link q s)
+    (hct : s.ct = true → s.sopen = false) (hq : s.sopen = true → s.blocked = true ∨ proj q = []) :
+    Link q (protoClose c r s) := by
+  cases hso : s.sopen with
+  | false =>
+    refine link_frame h (protoClose_keeps c r s).1 (protoClose_keeps c r s).2.1 ?_ (protoClose_keeps c r s).2.2.1
+      (protoClose_keeps c r s).2.2.2.1 (fun hx => by rw [hso] at hx; exact absurd hx (by simp)) ?_
+    · rcases s with ⟨hconn, occ, ct, st, waiting, sopen, code, reason, ping, gotPong, blocked, loopDone, inq, peerGone, log⟩
+      simp only at hso
+      subst hso
+      cases st <;> cases ct <;> simp [protoClose, closeStream, emit]
+    · rcases s with ⟨hconn, occ, ct, st, waiting, sopen, code, reason, ping, gotPong, blocked, loopDone, inq, peerGone, log⟩
+      simp only at hso
+      subst hso
+      cases st <;> cases ct <;> simp [protoClose, closeStream, emit]
+  | true =>
+    have hcf : s.ct = false := by
+      cases hx : s.ct with
+      | false => rfl
+      | true => have := hct hx; rw [hso] at this; exact absurd this (by simp)
+    have hu := link_now_undecided h hso (hq hso)
+    cases hst : s.st with
+    | true =>
+      refine link_frame h (protoClose_keeps c r s).1 (protoClose_keeps c r s).2.1 ?_ (protoClose_keeps c r s).2.2.1
+        (protoClose_keeps c r s).2.2.2.1 (fun _ => by rw [(protoClose_keeps c r s).2.2.2.2.2, hst]) ?_
+      · rcases s with ⟨hconn, occ, ct, st, waiting, sopen, code, reason, ping, gotPong, blocked, loopDone, inq, peerGone, log⟩
+        simp only at hso hcf hst
+        subst hso hcf hst
+        simp [protoClose, closeStream, emit]
+      · rcases s with ⟨hconn, occ, ct, st, waiting, sopen, code, reason, ping, gotPong, blocked, loopDone, inq, peerGone, log⟩
+        simp only at hso hcf hst
+        subst hso hcf hst
+        simp [protoClose, closeStream, emit]
+    | false =>
+      obtain ⟨p1, p2, p3, p4, p5⟩ := h.live hso
+      obtain ⟨h1, h2, h3, h4, h5, g1, g2, g3, g4, g5⟩ := h
+      rcases s with ⟨hconn, occ, ct, st, waiting, sopen, code, reason, ping, gotPong, blocked, loopDone, inq, peerGone, log⟩
+      simp only at hso hcf hst h1 h2 h3 p1 p2 p3 p4 hu g1 g2 g3 g4 g5
+      subst hso hcf hst
+      constructor
+      · simpa [protoClose, closeStream, emit, Obs.upd] using h1
+      · simpa [protoClose, closeStream, emit, Obs.upd] using h2
+      · simpa [protoClose, closeStream, emit] using h3
+      · intro _
+        simp [protoClose, closeStream, emit, Obs.upd, isClose, p1, p2, p3, p4]
+      · intro hx
+        simp [protoClose, closeStream, emit] at hx
+      · simp [protoClose, closeStream, emit, forallH, echoesPeerCode, hu, g1]
+      · simp [protoClose, closeStream, emit, forallH, bothClosedSendsClose, isOp, g2]
+      · simp [protoClose, closeStream, emit, forallH, teardownBothClosed, isOp, g3]
+      · simp [protoClose, closeStream, emit, forallH, notifyCarriesPeerClose, g4]
+      · simp [protoClose, closeStream, emit, forallH, notifyWhenDownB, isOp, g5]
+
+theorem abort_eq_down (s : St) (hso : s.sopen = true) :
+    abort s = { emit .streamClosed s with sopen := false, ct := true, st := true, waiting := false, ping := .off } := by
+  rcases s with ⟨hconn, occ, ct, st, waiting, sopen, code, reason, ping, gotPong, blocked, loopDone, inq, peerGone, log⟩
+  simp only at hso
+  subst hso
+  simp [abort, protoClose, closeStream, emit]
+
+theorem abort_log_closed (s : St) (hso : s.sopen = false) : (abort s).log = s.log := by
+  rcases s with ⟨hconn, occ, ct, st, waiting, sopen, code, reason, ping, gotPong, blocked, loopDone, inq, peerGone, log⟩
+  simp only at hso
+  subst hso
+  simp [abort, protoClose, closeStream, emit]
+
+/-- `_abort` on a state whose transport is down, or in which nothing is known about the peer's close -/
+theorem link_abort {q : List In} {s : St} (h : Link q s) (hq : s.sopen = true → s.blocked = true ∨ proj q = []) :
+    Link q (abort s) := by
+  cases hso : s.sopen with
+  | false =>
+    exact link_frame h (abort_keeps s).1 (abort_keeps s).2.1 (by rw [(abort_keeps s).2.2.2.2.2, hso])
+      (abort_keeps s).2.2.1 (abort_keeps s).2.2.2.1 (fun hx => by rw [hso] at hx; exact absurd hx (by simp))
+      (abort_log_closed s hso)
+  | true =>
+    rw [abort_eq_down s hso]
+    exact link_frame (link_emit_down h hso (hq hso)) rfl rfl rfl rfl rfl (fun hx => absurd hx (by simp)) rfl
+
+/-- the close notification, delivered once the transport is down, carries what the peer's close frame said -/
+theorem link_emit_notify {q : List In} {s : St} (h : Link q s) (hso : s.sopen = false) :
+    Link q (emit (.notify s.code s.reason) s) := by
+  have hok := h.dead hso
+  obtain ⟨h1, h2, h3, h4, h5, g1, g2, g3, g4, g5⟩ := h
+  have ho : obs (emit (.notify s.code s.reason) s).log = obs s.log := rfl
+  have hc : (emit (.notify s.code s.reason) s).log.any isClose = s.log.any isClose := rfl
+  constructor
+  · rw [ho]; exact h1
+  · rw [ho]; exact h2
+  · exact h3
+  · intro hx; rw [ho, hc]; exact h4 hx
+  · intro hx
+    have := h5 hx
+    unfold PeerOK peerOf at *
+    rw [ho, hc]
+    exact this
+  · show forallH echoesPeerCode (.notify s.code s.reason :: s.log) = true
+    simp [forallH, echoesPeerCode, g1]
+  · show forallH bothClosedSendsClose (.notify s.code s.reason :: s.log) = true
+    simp [forallH, bothClosedSendsClose, isOp, g2]
+  · show forallH teardownBothClosed (.notify s.code s.reason :: s.log) = true
+    simp [forallH, teardownBothClosed, isOp, g3]
+  · show forallH notifyCarriesPeerClose (.notify s.code s.reason :: s.log) = true
+    unfold PeerOK at hok
+    rw [forallH, g4, Bool.and_true]
+    unfold notifyCarriesPeerClose
+    cases hp : peerOf s.log with
+    | undecided => rw [hp] at hok; exact hok.elim
+    | downFirst => rw [hp] at hok; simp [hok.1, hok.2]
+    | got c r wf => rw [hp] at hok; simp [hok.1, hok.2.1]
+  · show forallH notifyWhenDownB (.notify s.code s.reason :: s.log) = true
+    simp [forallH, notifyWhenDownB, isOp, g5]
+
+theorem link_deliverClose {q : List In} {s : St} (cfg : Cfg) (h : Link q s) (hso : s.sopen = false) :
+    Link q (deliverClose cfg s) := by
+  have ha : Link q (abort s) := link_abort h (fun hx => by rw [hso] at hx; exact absurd hx (by simp))
+  have hah : Link q { abort s with hconn := false } := link_frame ha rfl rfl rfl rfl rfl (fun _ => rfl) rfl
+  have hocc : Link q { s with onCloseCalled := true } := link_frame h rfl rfl rfl rfl rfl (fun _ => rfl) rfl
+  have hn : Link q (emit (.notify s.code s.reason) { s with onCloseCalled := true }) := link_emit_notify hocc hso
+  have hocc2 : Link q { abort s with hconn := false, onCloseCalled := true } :=
+    link_frame ha rfl rfl rfl rfl rfl (fun _ => rfl) rfl
+  have hn2 : Link q (emit (.notify (abort s).code (abort s).reason) { abort s with hconn := false, onCloseCalled := true }) :=
+    link_emit_notify hocc2 (abort_keeps s).2.2.2.2.2
+  rcases cfg with ⟨side, pingOn, timeoutPos, gap⟩
+  cases side with
+  | client => exact link_emit_notify h hso
+  | server =>
+    simp only [deliverClose]
+    cases hh : s.hconn <;> cases ho : s.onCloseCalled
+    · simpa [hh, ho] using hn
+    · simpa [hh, ho] using h
+    · have ho' : (abort s).onCloseCalled = false := by
+        rcases s with ⟨hconn, occ, ct, st, waiting, sopen, code, reason, ping, gotPong, blocked, loopDone, inq, peerGone, log⟩
+        simp only at ho hso
+        subst ho hso
+        simp [abort, protoClose, closeStream, emit]
+      simpa [hh, ho'] using hn2
+    · have ho' : (abort s).onCloseCalled = true := by
+        rcases s with ⟨hconn, occ, ct, st, waiting, sopen, code, reason, ping, gotPong, blocked, loopDone, inq, peerGone, log⟩
+        simp only at ho hso
+        subst ho hso
+        simp [abort, protoClose, closeStream, emit]
+      simpa [hh, ho'] using hah
+
+theorem link_finishLoop {q : List In} {s : St} (cfg : Cfg) (h : Link q s) (hso : s.sopen = false) :
+    Link q (finishLoop cfg s) :=
+  link_deliverClose cfg (link_frame h rfl rfl rfl rfl rfl (fun _ => rfl) rfl) hso
 
 end TornadoModel.C16
